@@ -134,3 +134,54 @@ def f_history(case):
 FACETS.append(Facet('np/build-histories', f_history, strategy=lambda t: c09.st_history('np', 4), examples={'quick': 1500, 'thorough': 60000}, shards={'quick': 3, 'thorough': 12}))
 FACETS.append(Facet('torch/build-histories', f_history, strategy=lambda t: c09.st_history('torch', 3, ['rot', 'fmap', 'bmap'], ('CliffordCircuit',)),
                     examples={'quick': 150, 'thorough': 6000}, shards={'quick': 1, 'thorough': 4}, backend='torch'))
+
+
+def f_call_sequence(case):
+    """one gate / layer / circuit object run through a drawn sequence of forward/backward calls: each call must act as the reference map or its
+    inverse, whatever was called before (lazy inverse caching, compiled maps and object reuse must not change what the object denotes)."""
+    be, N, what = case['be'], case['N'], case['what']
+    Bk = B.backend(be)
+    cm = Bk.mods()['c']
+    if what == 'gate':
+        target = C.gate_lib(case['gate'], be)
+        if case['compile']:
+            target.compile()
+        total = C.gate_ref(case['gate'], N, target)
+    elif what == 'layer':
+        used = set(); prog = []
+        for gd in case['prog']:
+            if not (set(gd['qubits']) & used):
+                used |= set(gd['qubits']); prog.append(gd)
+        gates = [C.gate_lib(gd, be) for gd in prog]
+        target = cm.CliffordLayer(*gates)
+        if case['compile']:
+            target.compile(N)
+        total = C.program_ref(prog, N, gates)
+    else:
+        target, gates = c09.build(be, N, case['prog'], tuple(case['cfg']), case.get('split'))
+        total = C.program_ref(case['prog'], N, gates)
+    inv = total.inverse()
+    L, K = ref.parse_list(case['ops'])
+    obj = Bk.plist(L, K)
+    cl, ck = L, K
+    for i, d in enumerate(case['calls']):
+        (target.forward if d == 'f' else target.backward)(obj)
+        cl, ck = (total if d == 'f' else inv).apply(cl, ck)
+        C.expect_list(Bk.read_list(obj), (cl, ck), '%s: call #%d (%s) of the sequence %s on one object' % (what, i + 1, d, case['calls']), 'call-sequence')
+    return {'nt': len(set(case['calls'])) == 2 and len(case['calls']) >= 3 and total.key() != inv.key(), 'labels': [what, 'calls=%d' % len(case['calls'])]}
+
+
+def st_call_sequence(be, hiN, kinds=None, configs=None):
+    configs = configs or c09.CONFIGS
+    def inner(N):
+        return st.fixed_dictionaries({'be': st.just(be), 'N': st.just(N), 'what': st.sampled_from(['gate', 'gate', 'layer', 'circuit']),
+                                      'gate': gen.st_gate(N, kinds), 'prog': gen.st_program(N, 6, kinds), 'compile': st.booleans(),
+                                      'cfg': st.sampled_from(configs).map(list), 'split': st.integers(0, 9),
+                                      'ops': st.lists(gen.st_pauli(N), min_size=1, max_size=4),
+                                      'calls': st.text(alphabet='fb', min_size=1, max_size=7)})
+    return st.integers(1, hiN).flatmap(inner)
+
+
+FACETS.append(Facet('np/call-sequences', f_call_sequence, strategy=lambda t: st_call_sequence('np', 4), examples={'quick': 1500, 'thorough': 60000}, shards={'quick': 3, 'thorough': 12}))
+FACETS.append(Facet('torch/call-sequences', f_call_sequence, strategy=lambda t: st_call_sequence('torch', 3, ['rot', 'fmap', 'bmap'], c09.TORCH_CONFIGS),
+                    examples={'quick': 150, 'thorough': 6000}, shards={'quick': 1, 'thorough': 4}, backend='torch'))
